@@ -1,25 +1,30 @@
-"""Memory-layout variants of a caller-supplied batch of samples (same logical content, float64): the library must neither depend
-on contiguity nor write outside / into the caller's data.  Used by the observable harnesses (C08, C09, C16)."""
+"""Memory-layout (and element-type) variants of a caller-supplied batch of samples (same logical content; float64 unless a dtype is
+asked for): the library must neither depend on contiguity nor write outside / into the caller's data.  Used by the observable harnesses (C08, C09, C16)."""
 from .qc import torch
 
 LAYOUTS = ("contig", "cols", "rows", "T")
 PAD = 7.0
 
 
-def make_batch(rows, n, layout="contig"):
+DTYPES = {"f64": torch.double, "f32": torch.float32, "i64": torch.int64}
+
+
+def make_batch(rows, n, layout="contig", dtype=torch.double):
     """-> (tensor of shape (len(rows), n), backing buffer or None).
     contig: fresh contiguous tensor; cols / rows: strided view of every second column / row of a larger buffer filled with PAD;
-    T: column-major (transposed storage)"""
+    T: column-major (transposed storage).  dtype: element type of the batch (a torch dtype or a key of DTYPES): the samples are 0 / 1, so
+    every dtype holds the same logical content"""
+    dtype = DTYPES.get(dtype, dtype)
     B = len(rows)
-    base = torch.tensor(rows, dtype=torch.double).reshape(B, n)
+    base = torch.tensor(rows, dtype=dtype).reshape(B, n)
     if layout in (None, "contig") or B == 0 or n == 0:
         return base, None
     if layout == "cols":
-        big = torch.full((B, 2 * n + 1), PAD, dtype=torch.double)
+        big = torch.full((B, 2 * n + 1), PAD, dtype=dtype)
         big[:, 1::2] = base
         return big[:, 1::2], big
     if layout == "rows":
-        big = torch.full((2 * B + 1, n), PAD, dtype=torch.double)
+        big = torch.full((2 * B + 1, n), PAD, dtype=dtype)
         big[1::2] = base
         return big[1::2], big
     if layout == "T":
